@@ -296,9 +296,16 @@ func runC17(c *Ctx, r *Report, tier string) {
 		}
 		// the option measurement: updateLen(LongNameWithNamespace()+ValueName [+choices])
 		nUpd := 0
-		for _, in := range c.instrs(meas, c.isCallTo("(*alignmentInfo).updateLen")) {
-			call := in.(*ssa.Call)
-			t := c.term(call.Call.Args[1])
+		// (updateLen is looked through: what is measured is the string whose characters are counted for maxLongLen,
+		// at the call of updateLen or — when the helper is written out — at the counting itself)
+		for _, ci := range c.instrsCtx(meas, c.isCallTo("unicode/utf8.RuneCountInString")) {
+			call := ci.In.(*ssa.Call)
+			var t string
+			c.within(ci.Frames, func() { t = c.term(call.Call.Args[0]) })
+			var in ssa.Instruction = ci.In
+			if len(ci.Frames) > 0 {
+				in = ci.Frames[0]
+			}
 			if strings.Contains(t, "call:(*Option).LongNameWithNamespace(") {
 				nUpd++
 				okT := strings.Contains(t, "Option.ValueName(") && strings.Contains(t, "Option.Choices(")
